@@ -39,7 +39,7 @@ impl Check for C12 {
             return ExtraResult::default();
         }
         // coverage-guided search over the same scenario space with the same oracle (harness/fuzz, target pair_oracles)
-        crate::props::pairfuzz::pair_fuzz_extra("C12", seed, 250_000, &|sc| self.run(sc), &|sc| serde_json::to_value(sc).unwrap_or_default())
+        crate::props::pairfuzz::pair_fuzz_extra("C12", seed, 80_000, &|sc| self.run(sc), &|sc| serde_json::to_value(sc).unwrap_or_default())
     }
 
     fn cases(&self, tier: Tier) -> u64 {
